@@ -414,8 +414,22 @@ func TestVerif_C14_Budget(t *testing.T) {
 		}
 		return c
 	}
-	for _, cfg := range [][2]int{{300, 50}, {150, 50}, {300, 0}, {301, 1}} {
+	for _, cfg := range [][2]int{{300, 50}, {150, 50}, {300, 0}, {301, 1}, {302, 50}, {303, 50}} {
 		c := mk(cfg[0], cfg[1])
+		switch cfg[0] {
+		case 302: // the watcher answers the node's re-observation requests: the same message is observed again between retries
+			for i := range c.Ticks {
+				if i%7 == 3 {
+					c.Ticks[i].Pre = []op{{K: "observe", A: 0}, {K: "loopback", A: 0}}
+				}
+			}
+		case 303: // long stalls between ticks (the processor blocked, the process suspended): a stall is not a retry
+			for i := range c.Ticks {
+				if i%100 == 50 {
+					c.Ticks[i].Gap = 43200
+				}
+			}
+		}
 		// runC14 discards slow cases as inconclusive; this one is long by design, so judge it directly
 		v, o := runC14Long(c)
 		pl.Record(map[string]int{"gap": cfg[0], "reqcap": cfg[1], "ticks": len(c.Ticks)}, vh.Outcome{NonTrivial: true, Labels: o.Labels})
